@@ -215,7 +215,7 @@ def cleanRemove (f : Splat) (d : Dim) (u : UId) : Except Exc Splat :=
 /-- `dimension for dimension, factors in f.items() for _ in factors`, `_by_complex_first`. -/
 def byComplexFirst (f : Splat) : List Dim :=
   let ds := f.flatMap (fun r => r.2.map (fun _ => r.1))
-  ds.mergeSort (fun a b => decide (a.weight ≥ b.weight))
+  isort (fun a b => decide (a.weight ≥ b.weight)) ds
 
 end Splat
 
@@ -245,7 +245,7 @@ def replaceFactors (factors : Splat) : CM α (List (Rough α) × Splat) := do
         for unit in units do
           let alts := (c.ratios.row unit).map (·.1)
           let key (u : UId) : Int := ((s.unit! u).factors.length : Int) + factorSum (s.unit! u).factors
-          let alts := alts.mergeSort (fun a b => decide (key a ≥ key b))
+          let alts := isort (fun a b => decide (key a ≥ key b)) alts
           let uf := (s.unit! unit).factors
           match alts.find? (fun a =>
               let af := (s.unit! a).factors
